@@ -239,3 +239,36 @@ def rule_term_set_numbers(ctx, rep, config="c-lib"):
         rep.violation("R12-num", "term_set_insert/number-is-vector-index", "a new terminal set is numbered with `%s', not with the length of the vector it is appended to: when the "
                       "two counts differ (an entry reserved before a failed allocation) later parses look the set up at a slot it does not occupy" % v,
                       where=st.where(), witness=[st.where()])
+
+
+def rule_term_set_publish(ctx, rep, config="c-lib"):
+    rep.rule("R12-publish", "the table of terminal sets lives in the grammar object and is filled during parses (dynamic lookahead), so it must be consistent after a failed "
+                            "parse: term_set_insert publishes a new element in the hash table (the store through the reserved entry) only after every step of the "
+                            "insertion that may fail -- no call that may fail is reachable from the publishing store inside the function (otherwise the table keeps an "
+                            "element whose number is not in the vector, and the next parse reads behind it)")
+    from .r14 import path_exists
+    p = ctx.prog(config)
+    f = p.fn("term_set_insert")
+    rep.cover(p, [f.name])
+    lookups = [c for c in f.calls() if c.callee == "find_hash_table_entry" or ((p.m.functions.get(c.callee or "") is not None) and
+                                                                              p.m.functions[c.callee].d.get("srcname") == "find_entry")]
+    if len(lookups) != 1:
+        raise AnalysisBroken("R12-publish: %d lookups in term_set_insert" % len(lookups))
+    al = set([lookups[0].id] + [u.id for u in f.uses().get(lookups[0].id, []) if u.op == "bitcast"])
+    pubs = [s for s in f.all_insts() if s.op == "store" and strip_casts(f, s.ops[1]).get("v") in al]
+    if not pubs:
+        raise AnalysisBroken("R12-publish: the store through the reserved entry was not found")
+    bad = None
+    for s in pubs:
+        for c in f.calls():
+            if c is lookups[0] or not p.call_may_throw(f, c):
+                continue
+            if path_exists(f, s, c, []):
+                bad = (s, c)
+    if bad:
+        rep.violation("R12-publish", "term_set_insert/published-after-last-failing-step", "the new terminal set is entered into the hash table at %s, and %s -- which may "
+                      "fail (growth of the vector of sets) -- is called afterwards: after YAEP_NO_MEMORY the grammar keeps a set whose number is the index of a slot the "
+                      "vector does not have; the next parse of the same grammar finds the set and term_set_from_table reads behind the vector" % (
+                          bad[0].where(), bad[1].callee or "a function"), where=bad[0].where(), witness=[bad[0].where(), bad[1].where()])
+    else:
+        rep.ok("R12-publish", "term_set_insert/published-after-last-failing-step", sample={"published_at": pubs[0].where()})
